@@ -15,6 +15,7 @@ Spec == Init /\ [][Next]_vars
 
 Pat(w) == [j \in 1..w |-> IF j % 2 = 1 THEN 1 ELSE 0]            \* pattern 1,0,1,0,...
 Mat(w) == [l \in 1..2 |-> [p \in 1..w |-> ((l * 3 + p * p) % 7) - 2]]   \* small signed integer motif matrix
+Mat0(w) == [l \in 1..2 |-> [p \in 1..w |-> IF p = 2 THEN 0 ELSE Mat(w)[l][p]]]
 
 \* --- design invariants (row locality and window counts), checked on every state
 RowLocal == \A k \in 1..W : \A j \in DOMAIN rows :
@@ -42,6 +43,9 @@ Emit == PrintT(ToJson([rows |-> rows,
                        pats  |-> [k \in 1..W |-> Pat(k)],
                        scores |-> [k \in 1..W |-> Scores(rows, Mat(k), k)],
                        mats  |-> [k \in 1..W |-> Mat(k)],
+                       \* the same motif with a neutral second position (every letter scores 0 there)
+                       mats0 |-> [k \in 1..W |-> Mat0(k)],
+                       scores0 |-> [k \in 1..W |-> Scores(rows, Mat0(k), k)],
                        minim |-> [k \in 1..W |-> [w \in 1..W |-> IF w >= k THEN Minimizers(rows, k, w) ELSE <<>>]],
                        counts |-> [k \in 1..W |-> Counts(rows, k)]]))
 ==============================================================================
